@@ -239,15 +239,96 @@ func kvTok(l []msggen.KV) string {
 	return strings.Join(s, ",")
 }
 
+// fieldPresent: does the struct field that net/http writes on the wire exist for this key
+// (proxyutil.Header.All's notion: non-empty Host of a request, positive ContentLength, non-nil
+// TransferEncoding)?
+func fieldPresent(a *msggen.Abs, k string) bool {
+	switch k {
+	case "Host":
+		return a.Req && a.Host != ""
+	case "Content-Length":
+		return a.CL > 0
+	case "Transfer-Encoding":
+		return len(a.TE) > 0
+	}
+	return false
+}
+
+// expectedHeaders: the fields of the message. Host, Content-Length and Transfer-Encoding are the
+// struct fields when those are present (they are what is sent), whatever the header map holds
+// under the same key; otherwise the map's own lines.
 func expectedHeaders(a *msggen.Abs) []msggen.KV {
-	l := append([]msggen.KV(nil), a.Hdr...)
-	if a.Req && a.Host != "" {
+	var l []msggen.KV
+	for _, h := range a.Hdr {
+		if !fieldPresent(a, h.K) {
+			l = append(l, h)
+		}
+	}
+	if fieldPresent(a, "Host") {
 		l = append(l, msggen.KV{K: "Host", V: a.Host})
+	}
+	if fieldPresent(a, "Content-Length") {
+		l = append(l, msggen.KV{K: "Content-Length", V: strconv.FormatInt(a.CL, 10)})
 	}
 	for _, t := range a.TE {
 		l = append(l, msggen.KV{K: "Transfer-Encoding", V: t})
 	}
 	return msggen.SortKV(l)
+}
+
+// wireFields reads the field lines of the head that net/http's Write puts on the wire.
+func wireFields(out []byte) map[string][]string {
+	m := map[string][]string{}
+	head := out
+	if i := bytes.Index(out, []byte("\r\n\r\n")); i >= 0 {
+		head = out[:i]
+	}
+	lines := strings.Split(string(head), "\r\n")
+	for _, ln := range lines[1:] {
+		if j := strings.IndexByte(ln, ':'); j > 0 {
+			k := http.CanonicalHeaderKey(ln[:j])
+			m[k] = append(m[k], strings.TrimSpace(ln[j+1:]))
+		}
+	}
+	return m
+}
+
+// headerListVsWire: for Host, Content-Length and Transfer-Encoding, whenever the message has the
+// struct field, the entry's header list must say what a fresh copy of the message puts on the wire
+// (the property's "header list (including Host, Content-Length and Transfer-Encoding) equal those
+// of the message"). Independent of the model: the wire is produced by net/http itself.
+func headerListVsWire(a *msggen.Abs, mode string, hs []har.Header) string {
+	var out bytes.Buffer
+	if a.Req {
+		twin, bad := a.BuildRequest(mode)
+		if bad != "" {
+			return ""
+		}
+		twin.Write(&out)
+	} else {
+		twin, bad := a.BuildResponse(mode, msggen.DummyReq())
+		if bad != "" {
+			return ""
+		}
+		twin.Write(&out)
+	}
+	wire := wireFields(out.Bytes())
+	for _, k := range []string{"Host", "Content-Length", "Transfer-Encoding"} {
+		if !fieldPresent(a, k) || (k == "Content-Length" && a.Chunked()) {
+			continue
+		}
+		var got []string
+		for _, h := range hs {
+			if h.Name == k {
+				got = append(got, h.Value)
+			}
+		}
+		core.Count("hdr-vs-wire:" + k)
+		if strings.Join(got, ", ") != strings.Join(wire[k], ", ") {
+			return fmt.Sprintf("%s: entry lists %q, the wire carries %q (header map holds %q)", k, got, wire[k], a.Get(k))
+		}
+	}
+	return ""
 }
 
 func (e *ex) Do(op string) core.Result {
@@ -263,6 +344,8 @@ func (e *ex) Do(op string) core.Result {
 		return jsoncontent(t)
 	case "export":
 		return e.export()
+	case "jsonstr":
+		return jsonstr(t)
 	}
 	return core.Result{Impl: "bad-op"}
 }
@@ -327,6 +410,9 @@ func (e *ex) hreq(t []string) core.Result {
 	ct := a.Get("Content-Type")
 	if r.Method != a.Method || r.URL != a.URL || r.HTTPVersion != fmt.Sprintf("HTTP/%d.%d", a.Major, a.Minor) {
 		return ret("c16:request-line", "entry has %s %s %s, message %s %s HTTP/%d.%d", r.Method, r.URL, r.HTTPVersion, a.Method, a.URL, a.Major, a.Minor)
+	}
+	if d := headerListVsWire(a, mode, r.Headers); d != "" {
+		return ret("c16:header-list-not-wire", "%s", d)
 	}
 	if hdrTok(r.Headers) != kvTok(expectedHeaders(a)) {
 		var got []msggen.KV
@@ -451,6 +537,9 @@ func (e *ex) hres(t []string) core.Result {
 	if r.Status != a.Code || r.HTTPVersion != fmt.Sprintf("HTTP/%d.%d", a.Major, a.Minor) || r.StatusText != http.StatusText(a.Code) {
 		return ret("c16:status-line", "entry has %d %q %s, message %q HTTP/%d.%d", r.Status, r.StatusText, r.HTTPVersion, a.Status, a.Major, a.Minor)
 	}
+	if d := headerListVsWire(a, mode, r.Headers); d != "" {
+		return ret("c16:header-list-not-wire", "%s", d)
+	}
 	if hdrTok(r.Headers) != kvTok(expectedHeaders(a)) {
 		return ret("c16:response-headers", "header list %s, message has %s", hdrTok(r.Headers), kvTok(expectedHeaders(a)))
 	}
@@ -536,11 +625,15 @@ func jsonForm(b []byte) (string, string, bool) {
 			kind = s
 		}
 	}
-	var txt string
+	// the raw string token of the text member, as encoding/json wrote it (compared with the model's
+	// quote); an omitted member (omitempty) reads as the empty string token
+	txt := `""`
 	if x, ok := m["text"]; ok {
-		if json.Unmarshal(x, &txt) != nil {
+		var s string
+		if json.Unmarshal(x, &s) != nil {
 			return "", "", false
 		}
+		txt = string(x)
 	}
 	return kind, txt, true
 }
@@ -573,8 +666,10 @@ func jsonpd(t []string) core.Result {
 	core.Count("jsonpd:" + kind)
 	impl := fmt.Sprintf("%s %s rt=%s", kind, core.HexS(txt), rt)
 	if rt != "ok" {
-		impl = kind + " ? rt=lossy" // what a lossy string looks like is encoding/json's business
+		impl = kind + " ? rt=lossy"
 	}
+	// the whole object as encoding/json wrote it: member order, omitempty, base64 of []byte
+	impl += " obj=" + core.Hex(b)
 	if rt != "ok" {
 		sig := "c16:json-roundtrip-postdata"
 		if q.Text == p.Text && q.MimeType == p.MimeType && !paramsValid(p.Params) {
@@ -619,6 +714,7 @@ func jsoncontent(t []string) core.Result {
 	if rt != "ok" {
 		impl = kind + " ? rt=lossy"
 	}
+	impl += " obj=" + core.Hex(b)
 	// the logger only produces base64 content; the plain form is exercised for the model tie only
 	if rt != "ok" && t[1] == "1" {
 		r := fail("c16:json-roundtrip-content", "Content does not survive json.Marshal/Unmarshal (%d bytes)", len(text))
